@@ -8,7 +8,7 @@
 From Coq Require Import List NArith ZArith Bool.
 From KV Require Import Lib.Bits Lib.Bytes Model.Legacy Model.ConnOps.
 From KV Require Import Proofs.ConnOpsBase Proofs.ConnOpsCodec Proofs.ConnOpsProofs Proofs.ConnOpsWitness
-  Proofs.ConnOpsCustom Proofs.ConnOpsAll.
+  Proofs.ConnOpsCustom Proofs.ConnOpsAll Proofs.ConnOpsNego.
 Import ListNotations.
 Open Scope Z_scope.
 
@@ -89,6 +89,19 @@ Theorem C17_conn_regression_produce_error : forall k, (41 <= k < 45)%nat ->
     = (st', RErr EEOF, s') /\ closed st' = true.
 Proof. exact produce_error_cut_in_throttle. Qed.
 Print Assumptions C17_conn_regression_produce_error.
+
+(* Batch.Read into a buffer shorter than the value (AFetchRead [1], values "ab" / "cde"), the
+   response cut at ANY byte — before, inside or after the value that does not fit: the call
+   reports io.ErrUnexpectedEOF, never io.ErrShortBuffer, and the Conn is closed (an instance of
+   C17_conn_cut, which quantifies over AFetchRead like over every operation) *)
+Theorem C17_conn_short_buffer_read_cut :
+  length (frame 1 (enc (resp_ty AFetch 2) w_fetch_two)) = 114%nat /\
+  forall k, (k < 114)%nat ->
+  exists st' s', conn_do (fresh [116%N]) (mkOp (AFetchRead [1]) 2 7)
+                   (firstn k (frame 1 (enc (resp_ty AFetch 2) w_fetch_two)))
+                 = (st', RErr EUnexpEOF, s') /\ closed st' = true.
+Proof. exact short_buffer_cut_anywhere. Qed.
+Print Assumptions C17_conn_short_buffer_read_cut.
 
 (* ---- non-vacuity ---- *)
 Example C17_conn_nonvacuous_fetch_full :
